@@ -480,6 +480,23 @@ class Machine:
             self.check_after_success(stored, n)
             self.trace.append('commit')
             return
+        if arg % 4 == 1:
+            # the application goes on in the doomed transaction before it
+            # aborts: adding an object now must fail and leave the object
+            # unowned
+            extra = make('cell', self.tok())
+            try:
+                A.conn.add(extra)
+            except Exception:       # noqa: B902 -- TransactionFailedError
+                pass
+            else:
+                self.trace.append('add-in-doomed-accepted')
+            A.abort()
+            if extra._p_oid is not None or extra._p_jar is not None:
+                self.flag('new-object-still-owned', 'an object passed to '
+                          'conn.add() after the commit had failed (before '
+                          'abort) still has oid %r / a jar after the abort'
+                          % (extra._p_oid,))
         A.abort()
         self.after_failure()
         self.storage_unchanged('after failed commit (%s)' % how)
